@@ -81,6 +81,10 @@ import (
 //      The same functions run on the leader before a ZREMRANGEBY* is proposed
 //      (D11), so the generator emits only accepted ranges for those writes.
 //  D15 a table counter is kept per table (not modelled, not compared: C12).
+//  D17 wait_compact stores the expiry as uint32 seconds: an absolute expiry
+//      second >= 2^32-2 is refused with an error ("expiration time overflow",
+//      rockredis/t_ttl_compact.go:270 rawExpireAt), the key is left unchanged.
+//      The largest accepted expiry second is 2^32-3.
 //  D16 bulk reads refuse more than 5000 elements with an error: HGETALL/HKEYS/
 //      HVALS/SMEMBERS of a larger collection, LRANGE/ZRANGE/ZREVRANGE windows
 //      and ZRANGEBYSCORE/ZRANGEBYLEX results longer than that.
@@ -147,6 +151,9 @@ const (
 )
 
 const maxValueSize = 8 * 1024 * 1024
+
+// maxWhen is D17's first refused absolute expiry second.
+const maxWhen = int64(1)<<32 - 2
 
 // maxBulkRead is D16's limit (rockredis.MAX_BATCH_NUM).
 const maxBulkRead = 5000
@@ -406,8 +413,16 @@ func (m *Model) expireCmd(o Op, typ string, exists bool, setExp func(int64)) Exp
 		m.dev("D6")
 		return Exp{R: rInt(1)}
 	}
+	if when >= maxWhen {
+		m.dev("D17")
+		return Exp{R: rErr("expiration time overflow")}
+	}
+	cls := ""
+	if when < 0 {
+		cls = "negative-when" // |ttl| larger than the log second: the absolute expiry second is negative
+	}
 	setExp(when)
-	return Exp{R: rInt(1)}
+	return Exp{R: rInt(1), Class: cls}
 }
 
 // persistCmd models PERSIST/HPERSIST/...: Redis answers 1 only if a timeout
